@@ -166,6 +166,36 @@ def own_body(ctx: H.BaseCtx):
                         pass
                     if arr.tobytes() != before_a:
                         ctx.fail("mutated", "%s changed that array to %s" % (name, arr.tolist()))
+                # attribute tables handed to the constructors: exponent arrays of every integer type (incl. the uint32 table that
+                # poly.exponents returns) and coefficient arrays, under both settings of the retain flags
+                base = numpoly.polynomial([q0 ** 2 + 3, 2 * q0 * numpoly.variable(2)[1], 5])
+                for edt in ("uint32", "int64", "int32", "uint8", "uint64", "int16"):
+                    for rc in (True, False):
+                        for label, call in (
+                            ("ndpoly(exponents=)", lambda e, c: numpoly.ndpoly(exponents=e, shape=(3,), names=("q0", "q1"))),
+                            ("polynomial_from_attributes", lambda e, c: numpoly.polynomial_from_attributes(e, c, ("q0", "q1"), retain_coefficients=rc, retain_names=rc)),
+                            ("ndpoly.from_attributes", lambda e, c: numpoly.ndpoly.from_attributes(e, c, ("q0", "q1"), retain_coefficients=rc, retain_names=rc)),
+                            ("clean_attributes(poly built on the table)", lambda e, c: numpoly.clean_attributes(numpoly.polynomial_from_attributes(e, c, ("q0", "q1"), retain_coefficients=True, retain_names=True))),
+                            ("glexsort(table.T)", lambda e, c: numpoly.glexsort(e.T)),
+                            ("monomial-style lookups: glexindex-free bindex", lambda e, c: numpoly.polynomial(dict(zip([tuple(r) for r in e.tolist()], c)), names=("q0", "q1"))),
+                        ):
+                            e = numpy.array(base.exponents, dtype=edt)
+                            cs = [numpy.array(c, copy=True) for c in base.coefficients]
+                            ctab = numpy.array(cs)
+                            before_e, before_c = e.tobytes(), [c.tobytes() for c in cs]
+                            for coefs in (cs, ctab):
+                                try:
+                                    with numpoly.global_options(retain_coefficients=rc, retain_names=rc):
+                                        call(e, coefs)
+                                except Exception:
+                                    pass
+                                if e.tobytes() != before_e:
+                                    ctx.fail("mutated", "%s changed the %s exponent table it was given to %s (retain flags %s)" % (label, edt, e.tolist(), rc))
+                                    e = numpy.array(base.exponents, dtype=edt)
+                                if [c.tobytes() for c in cs] != before_c or ctab.tobytes() != b"".join(before_c):
+                                    ctx.fail("mutated", "%s changed the coefficient arrays it was given (retain flags %s)" % (label, rc))
+                                    cs = [numpy.array(c, copy=True) for c in base.coefficients]
+                                    ctab = numpy.array(cs)
         elif fn == "out":
             # explicit targets are exempt; the *other* arguments are not
             import numpoly as npo
